@@ -29,9 +29,9 @@ type TokenManager struct {
 func (tm *TokenManager) NewToken(username string) *Token {
 	token := &Token{
 		Username: username,
-		AToken:   security.NewID().MD5(),
+		AToken:   security.NewSecret(),
 		AExp:     time.Now().Add(time.Hour * time.Duration(2)).Unix(),
-		RToken:   security.NewID().MD5(),
+		RToken:   security.NewSecret(),
 		RExp:     time.Now().Add(time.Hour * time.Duration(7*24)).Unix(),
 	}
 
